@@ -227,11 +227,25 @@ def tries(ctx, rule):
     for modname, trie, expr in feeders:
         mod = repo.mod(modname)
         ok = False
+        want = []
+        for nm in expr.split("+"):
+            try:
+                want.extend(repo.const(mod, nm.strip()))
+            except (AnalysisError, Unknown):
+                # the module no longer sees the list under that name: resolve it at its pinned home
+                home = {"SHORTENER_DOMAINS": "is_shortened_url", "SHOULD_RESOLVE_DOMAINS": "should_resolve", "YOUTUBE_DOMAINS": "youtube"}[nm.strip()]
+                want.extend(repo.const(repo.mod(home), nm.strip()))
         for loop in mod.toplevel_loops:
             body = loop.body
             if len(body) == 1 and isinstance(body[0], ast.Expr) and isinstance(body[0].value, ast.Call) and unparse(body[0].value.func) == trie + ".add" and isinstance(loop.target, ast.Name) \
-                    and unparse(body[0].value.args[0]) == loop.target.id and unparse(loop.iter).replace(" ", "") == expr.replace(" ", ""):
-                ok = True
+                    and unparse(body[0].value.args[0]) == loop.target.id:
+                # the iterable, folded to a constant: exactly the listed domains (order is irrelevant to a set)
+                try:
+                    fed = list(repo.ceval(mod, loop.iter))
+                except Unknown:
+                    continue
+                if sorted(fed) == sorted(want):
+                    ok = True
         ctx.ob(rule, "%s/fed-with-%s" % (trie, expr.replace(" ", "")), ok, "%s is not filled by `for d in %s: %s.add(d)`" % (trie, expr, trie), mod.site(mod.tree))
         rec = mod.last_binding(trie)
         ok2 = rec is not None and rec[0] == "assign" and unparse(rec[1]) == "HostnameTrieSet()"
